@@ -184,7 +184,7 @@ pub fn tape_checks(ctx: &Ctx) -> Vec<(&'static str, Box<CheckFn<'_>>)> {
 }
 
 pub fn budget(_name: &str) -> (u32, u32, usize) {
-	(150_000, 20, 512)
+	(400_000, 10, 512)
 }
 
 pub fn run(ctx: &Ctx) -> (Level, Report) {
